@@ -2,9 +2,14 @@ package checks
 
 import (
 	"bytes"
+	"crypto/ed25519"
+	"crypto/rand"
 	"encoding/json"
 	"fmt"
+	"io"
 	"strings"
+
+	mail "github.com/wneessen/go-mail"
 
 	"verif/cmsverify"
 	"verif/hx"
@@ -30,6 +35,14 @@ type c08Case struct {
 	Touch bool `json:"touch,omitempty"`
 	// FailAt > 0: before (and between) the judged renders, one WriteTo goes into a sink that fails after FailAt bytes
 	FailAt int `json:"fail_at,omitempty"`
+	// Hist: further histories before / between the judged renders —
+	//  1: the message is first given a key the signer cannot use (Ed25519: accepted by SignWithKeypair, refused at
+	//     render time), rendered (fails), then given the real key pair;
+	//  2: WriteToSkipMiddleware is called once before every judged render;
+	//  3: after the first judged render a text/html alternative is added (later renders must sign the larger message);
+	//  4: after the first judged render the message is re-keyed with the OTHER key type (later renders must carry
+	//     and verify under the new certificate)
+	Hist int `json:"hist,omitempty"`
 }
 
 func c08Exec(r *vf.Run, k c08Case) []finding {
@@ -66,6 +79,35 @@ func c08Exec(r *vf.Run, k c08Case) []finding {
 			return nil
 		}
 	}
+	if k.Hist == 1 {
+		_, edKey, _ := ed25519.GenerateKey(rand.Reader)
+		if err := m.SignWithKeypair(edKey, hx.Mat().SignECDSA.Leaf, nil); err != nil {
+			r.HarnessError("C08 SignWithKeypair(ed25519) refused at call time: %v", err)
+			return nil
+		}
+		var ferr error
+		if pan, pw := vf.Guard(func() { _, ferr = m.WriteTo(io.Discard) }); pan {
+			add("panic/"+vf.PanicSite(pw), "render with an unusable key: %s", firstLine(pw))
+			return out
+		}
+		if ferr == nil {
+			r.HarnessError("C08: rendering with an Ed25519 key did not fail")
+			return nil
+		}
+		mat := hx.Mat()
+		kp := mat.SignRSA
+		if k.Spec.SMIME == 2 {
+			kp = mat.SignECDSA
+		}
+		inter := mat.InterCert
+		if !k.Spec.Inter {
+			inter = nil
+		}
+		if err := m.SignWithKeypair(kp.PrivateKey, kp.Leaf, inter); err != nil {
+			r.HarnessError("C08 SignWithKeypair: %v", err)
+			return nil
+		}
+	}
 	_, shape := expectedLeaves(k.Spec)
 	cls := shapeClass(shape)
 	if len(k.Spec.Parts)+len(k.Spec.Embeds)+len(k.Spec.Attach) == 0 {
@@ -84,6 +126,34 @@ func c08Exec(r *vf.Run, k c08Case) []finding {
 		}
 		if k.Touch && ri > 0 {
 			m.Subject(fmt.Sprintf("subject changed before render %d", ri+1))
+		}
+		switch {
+		case k.Hist == 2:
+			_, _ = vf.Guard(func() { _, _ = m.WriteToSkipMiddleware(io.Discard, "verif-no-such-middleware") })
+		case k.Hist == 3 && ri == 1:
+			added := mb.Part{Type: "text/html", Content: []byte("<p>alternative added after the first signed render</p>\r\n"), Via: "string"}
+			if len(k.Spec.Parts) == 0 {
+				added.Type = "text/plain"
+				m.SetBodyString(mail.TypeTextPlain, string(added.Content))
+			} else {
+				m.AddAlternativeString(mail.TypeTextHTML, string(added.Content))
+			}
+			k.Spec.Parts = append(append([]mb.Part{}, k.Spec.Parts...), added)
+		case k.Hist == 4 && ri == 1:
+			mat := hx.Mat()
+			kp := mat.SignECDSA
+			if k.Spec.SMIME == 2 {
+				kp = mat.SignRSA
+			}
+			inter := mat.InterCert
+			if !k.Spec.Inter {
+				inter = nil
+			}
+			if err := m.SignWithKeypair(kp.PrivateKey, kp.Leaf, inter); err != nil {
+				r.HarnessError("C08 SignWithKeypair (re-key): %v", err)
+				return nil
+			}
+			k.Spec.SMIME = 3 - k.Spec.SMIME
 		}
 		pan, pw := vf.Guard(func() {
 			if len(k.Switch) == 3 && k.Switch[1] > 0 {
@@ -290,6 +360,11 @@ func c08Specs(thorough bool) []c08Case {
 								if thorough || n%3 == 0 || mod == "none" {
 									for _, fa := range []int{1, 200, 600, 1500} {
 										cs = append(cs, c08Case{Spec: v, Renders: 2, Ks: []int{0, 0}, Mod: mod, FailAt: fa})
+									}
+								}
+								if thorough || n%4 == 0 || mod == "none" {
+									for h := 1; h <= 4; h++ {
+										cs = append(cs, c08Case{Spec: v, Renders: 3, Ks: []int{0, 0, 0}, Mod: mod, Hist: h})
 									}
 								}
 								if thorough || n%4 == 0 || mod == "none" && n%2 == 0 {
